@@ -9,8 +9,8 @@
 From Coq Require Import QArith Qabs ZArith String List Bool.
 From Verif.Sem Require Import Field Val QInst Corr.
 From Verif.Vec Require Import QRInst.
-From Verif.C03 Require Import SemExt.
-From Run Require Import GenBeamline.
+From Verif.C03 Require Import SemExt Graph GraphNeeds.
+From Run Require Import GenBeamline GenGraph.
 Import ListNotations.
 Open Scope string_scope.
 
@@ -57,6 +57,48 @@ Definition run (name : string) (vs : list vin) (ss : list inp) : val O :=
 
 Definition check (c : ccase) : string :=
   rcmp h mn (cabs c) (run (cname c) (cvecs c) (cscal c)) (cout c) (ctol c).
+
+(* ---- data that carries an ARBITRARY set of coordinates (a monitor without sample position, a secondary flight path
+   alone, precomputed beams / lengths ...): what a public entry point or a graph node must return is the coordinate
+   resolved through the graph of THIS run (Run.GenGraph; tied to the Euclidean compositions by TieGraph.v) from exactly
+   the coordinates the data carries; when an input is neither carried nor computable the implementation must refuse
+   with a KeyError (before evaluating anything), and when the model refuses for another reason (units) the implementation
+   must refuse with the same class *)
+Record pcase := mkpc { pgraph : string; pnode : string; pvs : list (string * vin); pss : list (string * inp);
+                       pout : outcome; ptol : Q; pabs : bool }.
+Definition graph_named (name : string) : option (graph O) :=
+  if String.eqb name "beamline[T]" then Some (g_beamline_scatter O)
+  else if String.eqb name "beamline[F]" then Some (g_beamline_no_scatter O)
+  else if String.eqb name "Ltotal[T]" then Some (g_Ltotal_scatter O)
+  else if String.eqb name "Ltotal[F]" then Some (g_Ltotal_no_scatter O)
+  else if String.eqb name "two_theta" then Some (g_two_theta O)
+  else if String.eqb name "L1" then Some (g_L1 O)
+  else if String.eqb name "L2" then Some (g_L2 O)
+  else if String.eqb name "incident_beam" then Some (g_incident_beam O)
+  else if String.eqb name "scattered_beam" then Some (g_scattered_beam O)
+  else None.
+Definition penv (c : pcase) : env O :=
+  List.app (map (fun nv => (fst nv, rvec h mn (v_x (snd nv)) (v_y (snd nv)) (v_z (snd nv)) (v_sc (snd nv)) (v_dm (snd nv)))) (pvs c))
+           (map (fun ni => (fst ni, rv h mn (snd ni))) (pss c)).
+Definition PFUEL : nat := 8.
+Definition pcheck (c : pcase) : string :=
+  match graph_named (pgraph c) with
+  | None => "unknown-graph"
+  | Some g =>
+      let e := penv c in
+      match missing O PFUEL g (map fst e) (pnode c) with
+      | m :: _ =>
+          match pout c with
+          | OutErr cls => if String.eqb cls "KeyError" then "" else "refusal-class-model=KeyError,impl=" ++ cls
+          | _ => "impl-accepts-data-without-" ++ m
+          end
+      | [] =>
+          match resolve O PFUEL g e (pnode c), pout c with
+          | VErr _ er, OutErr cls => if String.eqb er cls then "" else "refusal-class-model=" ++ er ++ ",impl=" ++ cls
+          | m, o => rcmp h mn (pabs c) m o (ptol c)
+          end
+      end
+  end.
 End D.
 
 (* implementation-vs-implementation observations of the property's own statement
